@@ -91,7 +91,14 @@ class Ctx:
         e = {"TRACE_FILE": path}
         if env:
             e.update(env)
-        r = tlc.run(module, cfg, workers=1, env=e, timeout=timeout, heap=heap)
+        try:
+            r = tlc.run(module, cfg, workers=1, env=e, timeout=timeout, heap=heap)
+        except tlc.TlcError:
+            if os.environ.get("VERIF_KEEP"):
+                import shutil
+
+                shutil.copy(path, os.path.join("/tmp", "verif_failed_" + os.path.basename(path)))
+            raise
         self.states += r.distinct
         self.transitions += r.generated
         self.mc_runs.append(dict(r.summary(), module=label or os.path.basename(module), rows=len(rows)))
